@@ -452,6 +452,32 @@ func c02Call(name string, cur *idr.Node, args []interface{}) (interface{}, error
 			}
 		}
 		return wrap(customfuncs.DateTimeToEpoch(nil, a, b, c))
+	case "c02mix":
+		if err := fixed(4); err != nil {
+			return nil, err
+		}
+		zero := []interface{}{"", int64(0), false, float64(0)}
+		vals := make([]interface{}, 4)
+		for i := range vals {
+			vals[i] = zero[i]
+			if args[i] == nil {
+				continue
+			}
+			if fmt.Sprintf("%T", args[i]) != fmt.Sprintf("%T", zero[i]) {
+				return nil, &c02Fail{why: fmt.Sprintf("argument %d of c02mix is %T, %T is required", i+1, args[i], zero[i]), mismatch: true}
+			}
+			vals[i] = args[i]
+		}
+		return wrap(c02Mix(nil, vals[0].(string), vals[1].(int64), vals[2].(bool), vals[3].(float64)))
+	case "c02var":
+		if len(args) < 1 {
+			return nil, &c02Fail{why: "c02var needs its prefix", mismatch: true}
+		}
+		p, err := str(0)
+		if err != nil {
+			return nil, err
+		}
+		return wrap(c02Var(nil, p, args[1:]...))
 	case "copy":
 		if err := fixed(0); err != nil {
 			return nil, err
